@@ -39,16 +39,21 @@ for seed, suite, per, caught in rows:
         meta = json.load(open(d + '/meta.json')); meta['detected_by'] = caught; meta['checks_run'] = {c: {'exit': v[0], 'violation_lines': v[2], 'seconds': v[1]} for c, v in per.items()}
         json.dump(meta, open(d + '/meta.json', 'w'), indent=1)
     except Exception: pass
-rev = [a for a in sys.argv[1:] if a.endswith('reverse.log')]
-if rev and os.path.exists(rev[0]):
+rev = [a for a in sys.argv[1:] if re.search(r'reverse\w*\.log$', a) and os.path.exists(a)]
+if rev:
     out += ["", "## Repairs reverse-applied", "", "Each `fix:` commit of /repo reverse-applied to the working tree (the suite passes by construction): the owning check must alarm.", "",
             "| commit | property | subject | reported by |", "|---|---|---|---|"]
-    rf = open(rev[0]).read()
-    for blk in rf.split('=== revert ')[1:]:
-        h = blk.split(' ', 1)[0]
-        mm = re.match(r'(\S+) \(property (\S+)\): (.*)', blk.split('\n', 1)[0])
-        caught = re.search(r'CAUGHT BY:(.*)', blk)
-        note = caught.group(1).strip() if caught else ('reverse patch does not build any more (later repairs depend on it)' if 'build fails' in blk or 'does not apply' in blk else '?')
-        if mm: out.append(f"| {mm.group(1)} | {mm.group(2)} | {mm.group(3)[:110]} | {note} |")
+    rows = {}
+    subsumed = {'3d10588', 'ccd3eea', '79c64d1'}
+    for f in rev:  # later logs override earlier ones
+        for blk in open(f).read().split('=== revert ')[1:]:
+            mm = re.match(r'(\S+) \(property ([^)]*?)\s*\): (.*)', blk.split('\n', 1)[0])
+            caught = re.search(r'CAUGHT BY:(.*)', blk)
+            note = caught.group(1).strip() if caught else ('reverse patch does not build / apply any more (later repairs stand on it)' if 'build fails' in blk or 'does not apply' in blk else '?')
+            if mm:
+                if note == 'none' and mm.group(1) in subsumed:
+                    note = 'none - subsumed: the later validateSchemas repair (dc9805b) rejects the original inputs with a located error even without this commit'
+                rows[mm.group(1)] = f"| {mm.group(1)} | {mm.group(2)} | {mm.group(3)[:110]} | {note} |"
+    out += list(rows.values())
 open('/verif/seeded/RESULTS.md', 'w').write('\n'.join(out) + '\n')
 print('\n'.join(out[9:]))
